@@ -155,4 +155,19 @@ MUTANTS = [
  dict(id="C02", name="reply_buffer_size_mismatch", edits=[("src/cpp/ports.cpp", "    char buffer[8192];\n    rtosc_vmessage(buffer,8192,path,args,va);\n    reply(buffer);", "    char buffer[8192];\n    rtosc_vmessage(buffer,8200,path,args,va);\n    reply(buffer);")]),
  dict(id="C02", name="avmessage_counts_valueless_tags", edits=[("src/cpp/arg-val.c", "            vals[nvals++] = cur->val;", "            vals[nvals++] = cur->val;\n        else vals[nvals++] = cur->val;")]),
  dict(id="C02", name="null_buffer_size_without_padding", edits=[(RC, "    if(!buffer)\n        return total_len;", "    if(!buffer)\n        return total_len - (total_len > 32 ? 4 : 0);")]),
+
+ # ---- C07 validation of untrusted bytes
+ dict(id="C07", name="deref_bound_off_by_one", edits=[(RC, "    return pos<ring[0].len ? ring[0].data[pos] :", "    return pos<=ring[0].len ? ring[0].data[pos] :")]),
+ dict(id="C07", name="blob_length_unchecked", edits=[(RC, "                if(pos > ring[0].len+ring[1].len ||\n                        i > ring[0].len+ring[1].len-pos)\n                    return 0;\n", "")]),
+ dict(id="C07", name="validator_accepts_shorter_length", edits=[(RC, "    return observed_length == len;", "    return observed_length && observed_length <= len;")]),
+ dict(id="C07", name="validator_nonprintable_path_benign", expect=0, edits=[(RC, "        if(!isprint(*tmp))\n            return false;", "        ;")]),
+ dict(id="C07", name="validator_alignment_check_removed", edits=[(RC, "    if((offset2 % 4) != 0)\n        return false;", "")]),
+ dict(id="C07", name="extract_int_wrong_shift", edits=[(RC, "                result.i |= (*arg_pos++ << 16);\n                result.i |= (*arg_pos++ << 8);\n                result.i |= (*arg_pos++);\n                break;\n            case 'm':", "                result.i |= (*arg_pos++ << 16);\n                result.i |= (*arg_pos++ << 8);\n                arg_pos++;\n                break;\n            case 'm':")]),
+ dict(id="C07", name="arg_size_symbol_missing", edits=[(RC, "        case 'S':\n        case 's':\n            while(*arg_pos) ++arg_pos;", "        case 's':\n            while(*arg_pos) ++arg_pos;")]),
+ dict(id="C07", name="narguments_counts_leading_bracket", edits=[(RC, "    for(;*args;++args)\n        nargs += (*args == ']' || *args == '[') ? 0 : 1;\n    return nargs;", "    while(*args++)\n        nargs += (*args == ']' || *args == '[') ? 0 : 1;\n    return nargs;")]),
+ dict(id="C07", name="validator_reads_empty_buffer", edits=[(RC, "    if(len == 0 || *msg != '/')", "    if(*msg != '/')")]),
+ dict(id="C07", name="arg_start_skips_first_type_byte", edits=[(RC, "    while(*arg_pos) ++arg_pos;\n    //Alignment\n    arg_pos += 4-(arg_pos-aligned_ptr)%4;\n    return arg_pos-msg;", "    while(*++arg_pos);\n    //Alignment\n    arg_pos += 4-(arg_pos-aligned_ptr)%4;\n    return arg_pos-msg;")]),
+ dict(id="C07", name="length_string_scan_skips_first_byte", edits=[(RC, "                while(deref(pos,ring)) ++pos;", "                while(deref(++pos,ring));")]),
+ dict(id="C07", name="length_ignores_type_d", edits=[(RC, "            case 'h':\n            case 't':\n            case 'd':\n                pos += 8;\n                --toparse;", "            case 'h':\n            case 't':\n                pos += 8;\n                --toparse;\n                break;\n            case 'd':\n                pos += 4;\n                --toparse;")]),
+ dict(id="C07", name="type_tag_terminator_not_required", edits=[(RC, "    return pos <= (ring[0].len+ring[1].len) ? pos : 0;\n}\n\nsize_t rtosc_message_length", "    return pos <= (ring[0].len+ring[1].len)+2 ? (pos > ring[0].len+ring[1].len ? ring[0].len+ring[1].len : pos) : 0;\n}\n\nsize_t rtosc_message_length")]),
 ]
